@@ -49,11 +49,14 @@ claim("C07",
       "The file-level theorem covers one writer incarnation from a fresh directory plus a restart; interleaved restarts/GC are covered by the correspondence and the restart oracle.",
       "Coq proof (stream invariant, induction over frames and entries) + checked model/code correspondence")
 claim("C10",
-      "Coq theorems (PropC10.v): for EVERY directory content (any names, kinds, lengths, bytes) and any fault plan, open terminates (the model's fuel is never exhausted; explicit bound; fuel "
-      "monotonicity), and any log it returns satisfies the representation invariant the accessors rely on. Panic freedom is outside the (total) model: it is checked on the real crate under "
-      "catch_unwind with a watchdog on damaged / truncated / removed / duplicated files, stray entries, random and CRC-valid forged blocks. One known finding (record at position u64::MAX, debug builds).",
-      "Panics are checked, not proved.",
-      "Coq proof (termination measure over bytes/blocks/files) + checked model/code correspondence + catch_unwind oracle")
+      "Coq theorems (PropC10.v): for EVERY directory content (any names, kinds, lengths, bytes) and any fault plan, open terminates (explicit fuel bound, fuel monotonicity) and any log it returns satisfies the "
+      "representation invariant; panic freedom by enumeration of the panic sites of the Rust code (every slice, index, unwrap, assert, split_at, copy_from_slice of open and of the read accessors, each with its "
+      "source location and a guard proved to hold): the read half for ANY directory, the recovery-time GC when no WAL file is longer than a full file, the read accessors on whatever open returns, and - for debug "
+      "builds - no arithmetic overflow when decoded positions stay below 2^64-1. The two premises are needed: known findings F9 (over-long last file: assert in RollingWriter::write) and F6 (record at position "
+      "u64::MAX), both found by these proofs and reproduced on the crate on every run under catch_unwind with a watchdog, together with damaged / truncated / removed / duplicated files, stray entries, random "
+      "and CRC-valid forged blocks.",
+      "The enumeration of panic sites is by reading the Rust source (trusted); time arithmetic, in-memory size counters and allocation failure are not covered.",
+      "Coq proof (termination measure; guards at enumerated panic sites) + checked model/code correspondence + catch_unwind oracle")
 claim("C11",
       "Coq theorems (PropC11.v): with a fault plan armed on read_dir / open / read, if the injected failure is reached then open returns an I/O error — never Ok, never Corruption, never a hang "
       "(combined with C10's termination). Tied to the code by differential execution with the fault plans of the hooks for every call index recovery makes, with a deadline.",
